@@ -51,7 +51,9 @@ class C08(Prop):
     def cases(self, rng: random.Random, tier: str) -> Iterable[dict]:
         while True:
             r = rng.random()
-            if r < 0.45:
+            if r < 0.12:
+                c = self._entry_bypass(rng)
+            elif r < 0.45:
                 c = gen.gen_dag_program(rng, max_nodes=7, depth=rng.choice([0, 0, 1]), allow_fed_default=rng.random() < 0.3)
             elif r < 0.75:
                 c = gen.gen_gated_dag(rng)
@@ -60,6 +62,10 @@ class C08(Prop):
             program = copy.deepcopy(c["program"])
             root = program[-1]
             known = dict((k, v) for k, v in c["values"])
+            if c.get("fixed_ops"):
+                yield {"program": program, "known": [[k, v] for k, v in known.items()], "rtselect": None, "ops": {"entrypoints": root.get("entrypoints")},
+                       "runner": rng.choice(["sync", "async"])}
+                continue
             outs = list(dict.fromkeys(o for n in root["nodes"] for o in n.get("dataOuts", [])))
             ops: dict[str, Any] = {}
             if rng.random() < 0.35:
@@ -83,6 +89,28 @@ class C08(Prop):
                 ops["rtselect"] = rtsel
             yield {"program": program, "known": [[k, v] for k, v in known.items()], "rtselect": rtsel, "ops": ops,
                    "runner": rng.choice(["sync", "async"])}
+
+    @staticmethod
+    def _entry_bypass(rng: random.Random) -> dict:
+        """prepare(x..)->a ; work(a)->b ; [more chain] ; a gate (or an output-less node) consuming a chain value AND a raw input of `prepare`;
+        entry point at `work`: the raw input stays required although its other consumer is upstream of the entry point."""
+        n_chain = rng.randint(1, 3)
+        nodes = [{"name": "prepare", "kind": "fn", "params": [["x", None]] + ([["x2", None]] if rng.random() < 0.4 else []), "dataOuts": ["a"], "body": {"b": "sum", "k": 1}}]
+        prev = "a"
+        for i in range(n_chain):
+            nodes.append({"name": f"work{i}", "kind": "fn", "params": [[prev, None]], "dataOuts": [f"b{i}"], "body": {"b": "sum", "k": 1}})
+            prev = f"b{i}"
+        nodes.append({"name": "finish", "kind": "fn", "params": [[prev, None]], "dataOuts": ["c"], "body": {"b": "tag", "t": "finish"}})
+        shared = rng.choice(["x", "x"] + (["x2"] if len(nodes[0]["params"]) > 1 else []))
+        if rng.random() < 0.6:
+            nodes.append({"name": "gate", "kind": "ifelse", "params": [[prev, None], [shared, None]], "targets": ["finish", "__END__"], "body": {"b": "lt", "k": 99},
+                          "defaultOpen": rng.random() < 0.7})
+        else:
+            nodes.append({"name": "logit", "kind": "fn", "params": [[prev, None], [shared, None]], "dataOuts": [], "body": {"b": "tag", "t": "logit"}})
+        if rng.random() < 0.5:
+            rng.shuffle(nodes)
+        g = {"name": "g0", "nodes": nodes, "bound": [], "entrypoints": ["work0"]}
+        return {"program": [g], "values": [["x", 3], ["x2", 4], ["a", 5]], "fixed_ops": True}
 
     # ---------------------------------------------------------------- implementation side
     def _trials(self, spec: dict, known: dict) -> list[dict]:
@@ -150,7 +178,40 @@ class C08(Prop):
             trials.append({"omit": t["omit"], "values": t["values"], "entrypoint": kwargs.get("entrypoint"), "outcome": outcome,
                            "calls": len(env.log) - start, "events": len(rec.events), "shutdowns": rec.shutdowns})
         obs["trials"] = trials
+        # history: derive graphs from the one that has just been run (same run-time select) and check their contract too
+        derived = []
+        eff_req = obs["effspec"]["required"]
+        if eff_req:
+            r0 = eff_req[0]
+            try:
+                g2 = g.bind(**{r0: py_val(known.get(r0, 1))})
+                vals = {k: py_val(known.get(k, 1)) for k in eff_req if k != r0}
+                if obs["effspec"]["entrypoints"]:
+                    for pnm in obs["effspec"]["entrypoints"][0][1]:
+                        vals.setdefault(pnm, py_val(known.get(pnm, 1)))
+                derived.append(["bind-then-omit", r0, self._outcome(g2, vals, case)])
+                g3 = g2.unbind(r0)
+                derived.append(["unbind-then-omit", r0, self._outcome(g3, vals, case)])
+            except Exception as e:  # noqa: BLE001
+                derived.append(["derive-failed", r0, type(e).__name__])
+        obs["derived"] = derived
         return obs
+
+    @staticmethod
+    def _outcome(g: Any, vals: dict, case: dict) -> str:
+        kwargs: dict[str, Any] = {}
+        if case["rtselect"] is not None:
+            kwargs["select"] = case["rtselect"]
+        with warnings.catch_warnings():
+            warnings.simplefilter("ignore")
+            try:
+                if case["runner"] == "sync":
+                    SyncRunner().run(g, vals, error_handling="continue", max_iterations=60, **kwargs)
+                else:
+                    asyncio.run(AsyncRunner().run(g, vals, error_handling="continue", max_iterations=60, **kwargs))
+                return "ran"
+            except Exception as e:  # noqa: BLE001
+                return classify(e)
 
     def oracle(self, case: dict, obs: Any) -> str | None:
         if "build_error" in obs:
@@ -163,6 +224,11 @@ class C08(Prop):
         for law in obs["laws"]:
             if law[1:] != [True, True, True]:
                 return f"bind/unbind law fails for {law[0]!r}: (not required after bind, optional after bind, restored by unbind) = {law[1:]}"
+        for kind, r0, outcome in obs.get("derived", []):
+            if kind == "bind-then-omit" and outcome == "MissingInputError":
+                return f"after bind({r0}=...) the run with every other required input supplied was rejected with MissingInputError"
+            if kind == "unbind-then-omit" and outcome != "MissingInputError":
+                return f"after bind({r0}=...).unbind({r0!r}) omitting the again-required {r0!r} was not rejected (outcome {outcome})"
         for t in obs["trials"]:
             if t["omit"] is None:
                 if t["outcome"] == "MissingInputError":
